@@ -62,3 +62,60 @@ def axial_grid_rebuilt_from_reduce(n: int, k: int, z0: float, d1: float, d2: flo
     g = AxialGrid(bounds=(None, None, zb))
     g2 = AxialGrid(*g.reduce())
     same_grid(g, g2, (0, 0, k))
+
+
+# ----------------------------------------------------------------------------- widened hypotheses (assumption review)
+@lemma(gen=G)
+def hex_grid_rebuilt_from_reduce_any_offset(i: int, j: int, k: int, pitch: float, cornersUp: bool, ox: float, oy: float, oz: float):
+    """the lemma above moves the grid in the plane only (offset z = 0): here all three offset components are free,
+    given to the constructor (as the database does) - including the all-zero offset, which reduce() stores as None"""
+    assume(pitch > 0)  # (P) a pitch is a length
+    us = HexGrid._getRawUnitSteps(pitch, cornersUp)
+    g = HexGrid(unitSteps=us, unitStepLimits=((-1, 2), (-1, 2), (0, 1)), offset=(ox, oy, oz))
+    g2 = HexGrid(*g.reduce())
+    same_grid(g, g2, (i, j, k))
+    c = g2.getCoordinates((i, j, k))
+    assert eq(c[2], oz)
+    assert eq(g2.pitch, g.pitch) and g2.cornersUp == g.cornersUp
+
+
+@lemma(gen={"n": (1, 3), "k": (0, 2)})
+def axial_grid_rebuilt_from_reduce_any_bounds_and_offset(n: int, k: int, b0: float, b1: float, b2: float, b3: float, ox: float, oy: float, oz: float):
+    """axial_grid_rebuilt_from_reduce with ANY bounds (equal / decreasing neighbours included) and any grid offset"""
+    n = choose(n, 1, 3)
+    k = choose(k, 0, 2)
+    assume(k < n)  # (P) a cell of the grid
+    zb = [b0, b1, b2, b3][:n + 1]
+    g = AxialGrid(bounds=(None, None, zb), offset=(ox, oy, oz))
+    g2 = AxialGrid(*g.reduce())
+    same_grid(g, g2, (0, 0, k))
+    c = g2.getCoordinates((0, 0, k))
+    assert eq(c[0], ox) and eq(c[1], oy) and eq(c[2], (zb[k] + zb[k + 1]) / 2.0 + oz)
+
+
+@lemma(gen={"nt": (1, 2), "nr": (1, 2), "i": (0, 1), "j": (0, 1), "t0": (0.0, 2.0), "t1": (0.0, 2.0), "t2": (0.0, 2.0)})
+def thetarz_grid_rebuilt_from_reduce(nt: int, nr: int, i: int, j: int, t0: float, t1: float, t2: float, r0: float, r1: float, r2: float, z0: float, z1: float):
+    """the theta-R-Z bounds grid of the quantifier (built as gridBlueprint / meshConverters build it: three bounds axes)"""
+    nt = choose(nt, 1, 2)
+    nr = choose(nr, 1, 2)
+    i = choose(i, 0, 1)
+    j = choose(j, 0, 1)
+    assume(i < nt and j < nr)  # (P) a cell of the grid
+    tb = [t0, t1, t2][:nt + 1]
+    rb = [r0, r1, r2][:nr + 1]
+    # (P) ThetaRZGrid.getCoordinates refuses azimuths outside 0..2 pi ("angular meshes are limited to 0 to 2pi")
+    assume(0 <= t0 and t0 <= 6 and 0 <= t1 and t1 <= 6 and 0 <= t2 and t2 <= 6)
+    g = ThetaRZGrid(bounds=(tb, rb, (z0, z1)))
+    g.geomType = "thetarz"
+    g2 = ThetaRZGrid(*g.reduce())
+    assert type(g2) is type(g)
+    a, b = g2.getCoordinates((i, j, 0), nativeCoords=True), g.getCoordinates((i, j, 0), nativeCoords=True)
+    assert eq(a[0], (tb[i] + tb[i + 1]) / 2.0) and eq(a[1], (rb[j] + rb[j + 1]) / 2.0) and eq(a[2], (z0 + z1) / 2.0)
+    assert eq(a[0], b[0]) and eq(a[1], b[1]) and eq(a[2], b[2])
+    for fn in ("getCellBase", "getCellTop"):
+        a, b = getattr(g2, fn)((i, j, 0)), getattr(g, fn)((i, j, 0))
+        assert eq(a[0], b[0]) and eq(a[1], b[1]) and eq(a[2], b[2])
+    assert g2._geomType == g._geomType and g2._symmetry == g._symmetry
+    assert g2._unitStepLimits == g._unitStepLimits and g2.isAxialOnly == g.isAxialOnly
+    assert g2._stepDims == g._stepDims and g2._boundDims == g._boundDims
+    assert g2.getRingPos((i, j, 0)) == g.getRingPos((i, j, 0))
